@@ -200,7 +200,9 @@ def metadata(ctx):
     ctx.require(rx_call, "get_module_source_metadata: re.search not found")
     pat = str_value(rx_call[0].args[0]) or ""
     ctx.check(has_b and has_e and pat.startswith("__M_BEGIN_METADATA") and pat.endswith("__M_END_METADATA"), "markers", db.where(rx_call[0]), "writer markers and reader pattern %r disagree" % pat, "same BEGIN/END markers")
-    ctx.check(P.has(wm, "$s = {...}\n...") is not None and any(P.has(wm, "json.dumps(%s)" % s_.targets[0].id) for s_ in wm.body if isinstance(s_, ast.Assign) and isinstance(s_.targets[0], ast.Name) and isinstance(s_.value, ast.Dict)) and P.has(rd, "json.loads($x)"), "json", db.where(wm), "writer/reader do not both use json", "json.dumps / json.loads")
+    jd = [c_ for c_ in walk_func(wm) if isinstance(c_, ast.Call) and dotted(c_.func) == "json.dumps" and c_.args]
+    structs = {s_.targets[0].id for s_ in wm.body if isinstance(s_, ast.Assign) and isinstance(s_.targets[0], ast.Name) and isinstance(s_.value, ast.Dict)}
+    ctx.check(bool(jd) and (isinstance(jd[0].args[0], ast.Dict) or src(jd[0].args[0]) in structs) and P.has(rd, "json.loads($x)"), "json", db.where(wm), "writer/reader do not both use json", "json.dumps / json.loads")
     # terminal entry
     term = [n for n in walk_func(wm) if isinstance(n, ast.Assign) and "source_map[self.printer.lineno]" in src(n.targets[0])]
     ctx.check(bool(term) and src(term[0].value) == "max(self.printer.source_map)", "writer.terminal", db.where(term[0]) if term else db.where(wm), "no terminal line_map entry at the last module line", "terminal entry source_map[last line]")
